@@ -247,7 +247,7 @@ func init() {
 	const chunk = 101
 	nChunks := (len(lists) + chunk - 1) / chunk
 	fw.Register(&fw.Check{ID: "C14", Level: "exploration", Exhaustive: true,
-		Technique:   "runtime monitoring, exhaustive small scope: every caller group list of length 0..3 over a 10-name alphabet (admin names, substrings, superstrings, case variants, empty, names containing a blank or comma) x 6 ADMINGROUPS settings through the real Set handler; exact set-membership oracle; log length as witness; listing of all targets under authorization vs reference filter",
+		Technique:   "runtime monitoring, exhaustive small scope: every caller group list of length 0..3 over a 10-name alphabet (admin names, substrings, superstrings, case variants, empty, names containing a blank or comma) x 6 ADMINGROUPS settings through the real Set handler; exact set-membership oracle; log length as witness; listing of all targets under authorization vs reference filter (default and configured ROC-admin group name)",
 		Rule:        "1111 group lists (length 0..3 over a 10-name alphabet incl. names containing a blank or a comma) x 6 settings = 6666 authenticated Sets (each case = one setting x 101 lists) + 2 listing cases of 400 PRNG group lists; distinct_nontrivial = distinct (setting) classes + listing",
 		Assumptions: []string{"identity metadata is what the onos-lib-go authentication interceptor leaves in the incoming context: name, email, groups joined by ';'", "ADMINGROUPS is a comma-separated list"},
 		Floors:      map[string]int64{"authenticated_sets": 6600, "sets_expected_allowed": 900, "listings": 700},
@@ -586,7 +586,7 @@ func c13Run(c *fw.Case, n int) {
 
 func init() {
 	fw.Register(&fw.Check{ID: "C13", Level: "exploration",
-		Technique:   "runtime monitoring: PRNG Set requests mixing valid and one invalid operation through the real handler; refusal oracle = error returned, log length and configuration versions unchanged; acceptance oracle = logged (target, path, op, value) set vs reference addressing rules (prefix target wins, prefix elems + path elems, key-leaf delete addresses the entry, deletes before updates)",
+		Technique:   "runtime monitoring: PRNG Set requests mixing valid and one invalid operation (unknown target - with or without a version override naming it -, no plugin, override to an unknown model, non-model / read-only / non-leaf path, key-leaf contradictions, illegal key characters, malformed extension, no operations, size limit) through the real handler; refusal oracle = error returned, log length and configuration versions unchanged; acceptance oracle = logged (target, path, op, value) set vs reference addressing rules (prefix target wins, prefix elems + path elems, key-leaf delete addresses the entry, deletes before updates)",
 		Rule:        "each case = 60 requests under one GNMI_SET_SIZE_LIMIT in {0,1,2,5,50}; invalid kinds: unknown target, target without plugin, non-model path, read-only path, key leaf contradicting its key (or equal to another index), a scalar written to a container / list-entry path, illegal key characters, malformed extension, no operations, limit exceeded; distinct_nontrivial = distinct request shapes (refusal reason x prefix target x prefix elems x limit)",
 		Assumptions: []string{"handlers are called without controllers: an accepted request is recognised by its logged transaction and released by cancelling its context"},
 		DistinctSet: "request_shape", CaseTimeout: 300e9,
